@@ -126,7 +126,14 @@ def escSpecial (c : Char) : Bool :=
   c = '\\' || c = '.' || c = '(' || c = ')' || c = '[' || c = ']' || c = '^' || c = '$' || c = '%' ||
   c = ' ' || c = '\'' || c = '"'
 
-def escSection (s : Str) : Str := s.flatMap (fun c => if escSpecial c then ['\\', c] else [c])
+def escSectionRaw (s : Str) : Str := s.flatMap (fun c => if escSpecial c then ['\\', c] else [c])
+
+/-- … and (fixes/C02-3) a backslash before a leading `/`, which would otherwise switch the notation
+inferred when the reported path is parsed again. -/
+def escSection (s : Str) : Str :=
+  match escSectionRaw s with
+  | '/' :: r => '\\' :: '/' :: r
+  | r => r
 
 /-- `"[{}]".format(i)` -/
 def idxSection (i : Int) : Str := '[' :: (pyStrInt i ++ [']'])
